@@ -148,7 +148,9 @@ Inv_ReservedMisuse     == Bad_ReservedMisuse(Told, Rsv0[Root], {c \in DOMAIN gra
 Inv_SharedCapacity     == Bad_SharedCapacity(Tree, GrantsOf) \subseteq starved
 Inv_SharedCapacityStrict == Bad_SharedCapacity(Tree, GrantsOf) = {}      \* the property itself: violated by the design (F-C03-1)
 Inv_ReservedCapacity   == Bad_ReservedCapacity(Tree, GrantsOf) = {}
-Inv_IsolatedAllOrNone  == Bad_IsolatedAllOrNone(GrantsOf) = {}
+Inv_IsolatedAllOrNone  == Bad_IsolatedAllOrNone(GrantsOf) = {} /\ Bad_IsolatedAllOrNoneOf(GrantsOf, Isol0[Root]) = {}
+Inv_SharedHasNoIsolated == Bad_SharedHasIsolated(Tree, Isol0[Root]) = {}
+Inv_IsolatedOnlyByGrant == Bad_ToldIsolated(GrantsOf, Told, Isol0[Root]) = {}
 Inv_Ledger             == Bad_Ledger(Tree, GrantsOf) = {}
 \* C09 (CPU half): with no grants left every pool is back at its full supply
 Inv_Quiescent == (DOMAIN grant = {}) => (fshar = Shar0 /\ fisol = Isol0 /\ \A p \in Pool : gshar[p] = 0 /\ grsv[p] = 0)
